@@ -117,8 +117,16 @@ def run(ctx):
             m1.eval()
             sample_law(ctx, m1, n, rs, rep, 200000, eps)
         # (2) index arithmetic vs the model: region layers, padding buffers, unpad gather
-        if ctx.driver_ok:
-            ops, expect, ok_identity, pinned_raises = T.rat_case(n, d, reps, seed)
+        if ctx.driver_ok and not ctx.extra.get('buffers_gone'):
+            try:
+                ops, expect, ok_identity, pinned_raises = T.rat_case(n, d, reps, seed)
+            except Exception as ex:
+                # the buffers the model mirrors (masks, padding, gather indices) are not there any more: the index correspondence cannot be
+                # run; the behavioural streams (mass, marginals, contract, sample law) go on and look for a concrete input
+                ctx.extra['buffers_gone'] = f'{type(ex).__name__}: {ex}'
+                ctx.violation('c16-buffers-vs-model', f'the index buffers of the region-graph layer cannot be read any more ({type(ex).__name__}: {ex}); '
+                                                      f'the correspondence with Model/RatSpn.lean no longer checks', replay=rep, found_input=False)
+                continue
             drv = ctx.get_driver()
             for o, e in zip(ops, expect):
                 got = drv.ask(o)
@@ -137,7 +145,7 @@ def run(ctx):
                     if any(abs(g - x) > 1e-4 * max(abs(x), 1e-300) + 1e-9 for g, x in zip(got, e)):
                         ctx.violation('c16-forward-vs-model', f'forward value {e} vs unrolled circuit {got} on {o["row"]} (features={n}, depth={d})', replay=rep, found_input=False)
                         break
-        if ctx.n_new() >= 3:
+        if ctx.n_new(with_input_only=True) >= 3:
             return
     # history: parameters saved from one model and loaded into a separately built model of the same architecture (different region
     # graph seed) — the normal save / rebuild / load workflow; the restored model must still sample from ITS distribution
@@ -182,7 +190,22 @@ def run(ctx):
                 ctx.violation('c16-all-missing', f'Gaussian RAT-SPN: fully missing input has log-probability {z.tolist()}', replay=rep)
 
 
+_run_core = run
+
+
+def run(ctx):
+    _run_core(ctx)
+    if ctx.n_new() == 0 and ctx.driver_ok:
+        from harness.common import run_demo
+        run_demo(ctx, 'demo_ratsample.py', [2026 + ctx.seed], 'c16-topdown-pass-vs-model',
+                 'RatSpn.sample / RatSpn.mpe against the Lean model of the layer-wise top-down pass (exact conditional pmf, law of sample, MPE rows)',
+                 env_extra=dict(DEMO_STRIDE='6' if ctx.tier == 'quick' else '1'))
+
+
 def replay(rep):
+    if rep['replay'].get('kind') == 'demo':
+        from harness.common import replay_demo
+        return replay_demo(rep['replay'])
     r = rep['replay']
     if r['kind'] != 'c16':
         return True
